@@ -1,7 +1,7 @@
 #!/bin/bash
 # tools/mkmutws.sh Cxx: scratch worktree of /repo HEAD for a seeded-mutation agent, plus the property text only
 set -e
-id=$1; base=/tmp/m/$id
+id=$1; base=${MUTBASE:-/tmp/m}/$id
 mkdir -p $base/out
 git -C /repo worktree add -q --detach $base/repo HEAD
 cp /repo/orso/compute/compiled.c /repo/orso/compute/compiled.cpython-312-x86_64-linux-gnu.so $base/repo/orso/compute/
